@@ -6,6 +6,7 @@ import (
 	"encoding/json"
 	"fmt"
 	"math/big"
+	"os"
 
 	"github.com/MixinNetwork/mixin/common"
 	"verifharness/vh"
@@ -40,7 +41,7 @@ func Run(c *vh.Ctx, cs Case, opt Options) {
 		return
 	}
 	if err != nil {
-		c.Count("undecodable/" + cs.Kind)
+		c.Count("undecodable")
 		return
 	}
 	consistent, why := st.ViewConsistent()
@@ -54,6 +55,9 @@ func Run(c *vh.Ctx, cs Case, opt Options) {
 		class, obs = ClassReject, vh.Err("unit")
 	}
 	reads := st.Reads
+	if os.Getenv("VALSIM_DEBUG") != "" {
+		fmt.Fprintf(os.Stderr, "%s %v: %s %v %v\n", cs.Kind, cs.Muts, class, verr, pv)
+	}
 
 	// the projection is computed on a freshly decoded copy so that caches set by
 	// Validate cannot influence it
@@ -66,8 +70,22 @@ func Run(c *vh.Ctx, cs Case, opt Options) {
 	if !consistent {
 		kind = cs.Kind + "/inconsistent-view/" + class
 	}
+	if len(cs.Muts) == 0 {
+		c.Count("unmutated/" + class)
+	}
+	for _, m := range cs.Muts {
+		c.Count("mut:" + m + "/" + class)
+	}
 	c.Case(kind, hex.EncodeToString(sum[:12]), class == ClassAccept || reads > 0, cs, term)
 
+	// the input stage alone does not refuse node-cancel typed transactions (Props/C05.v, ..._refuted)
+	if ver2.TransactionType() == common.TransactionTypeNodeCancel && !pan {
+		st2, _ := NewStore(&cs.View)
+		var ierr error
+		if p, _ := vh.Catch(func() { ierr = common.VerifValValidateInputs(ver2, st2, cs.Fork) }); !p && ierr == nil {
+			c.Count("cancel-typed-passes-validateInputs/" + class)
+		}
+	}
 	if opt.OracleC05 && pan && consistent {
 		c.Fail("validate-panic", fmt.Sprintf("Validate panicked on a decodable transaction over a consistent view (%s): %v", cs.Kind, pv), cs)
 	}
